@@ -9,7 +9,7 @@ for d in seeded/*/; do
   [ -f $d/patch.diff ] || continue
   wt=$(mktemp -d /tmp/wt-reseed-XXXX)
   git -C /repo worktree add -q --detach $wt HEAD
-  if ! git -C $wt apply $OLDPWD/$d/patch.diff 2>/dev/null && ! git -C $wt apply /verif/$d/patch.diff 2>/dev/null; then
+  if ! git -C $wt apply /verif/$d/patch.diff 2>/dev/null && ! (cd $wt && patch -p1 -s -F 3 < /verif/$d/patch.diff >/dev/null 2>&1); then
     echo "SKIP  $n (patch no longer applies)"
     git -C /repo worktree remove --force $wt
     continue
